@@ -16,6 +16,21 @@ CHECKS = {
    "Arbitrary byte strings, structured mutations of valid frames (every truncation point), and the exhaustive cross product of boundary values for the three 64-bit length fields (incl. wrapping sums and unallocatable sizes) are fed to all 5 slice parsers and all 4 stream readers; never panic/abort, Ok iff the reference parser says a whole consistent frame is present, payload identical to the input bytes, exactly one frame consumed.",
    "Stream-reader cases keep each declared payload <= 16 MiB or >= 2^62 (the property's own memory-independence restriction); aborts are observed as child signal exits.",
    "DESIGN.md §4 C02"),
+ "C11": ("exploration",
+   "model-based testing: bounded-exhaustive operation sequences plus proptest random histories against a u128 reference model checked after every step",
+   "All operation sequences up to the tier's length over a 15-operation small-scope alphabet (exhaustive) and random histories up to 200 ops over 64-bit values with hostile acks run against TransferControl; offsets(), cancel state and the credit predicate (probed in the promised direction) must match the model after every step; a documented-loop producer is simulated under hostile acks.",
+   "Offsets <= 2^63 and chunk lengths <= 2^48 (property's bounds). Sequential probing only; blocking/wake-up behaviour is C12.",
+   "DESIGN.md §4 C11"),
+ "C12": ("exploration",
+   "randomized real-thread schedule generation (proptest) with a schedule-independent final-state oracle and a watchdog",
+   "At least 12 000 (quick) generated schedules of one waiter against 1-3 signaller threads, in parked-first (missing notify is deterministic) and racing start orders; if the final state satisfies the waiter's predicate it must have returned within a 10 s watchdog, else a harness cancel must release it; deadline cases must time out not earlier than the deadline. Interleavings are sampled, not enumerated.",
+   "Real OS scheduling; the lock-step model-checking clause of the quantifier is outside this technique (DESIGN.md §9).",
+   "DESIGN.md §4 C12"),
+ "C13": ("exploration",
+   "model-based testing: bounded-exhaustive push/resume/advance/cancel sequences x capacities plus proptest random histories against a harness-kept chunk list",
+   "After every step the retained ring must be a byte-identical contiguous suffix of everything pushed, bounded by capacity (or a single chunk); request_resume acceptance is predicted exactly; an accepted resume's tail starts at the offset and ends at the last byte pushed; peer installed; ResumeReady delivered exactly once; advance clears.",
+   "Chunks pushed contiguously (documented producer contract). Eviction tightness not demanded.",
+   "DESIGN.md §4 C13"),
 }
 
 NOT_YET = "check not built yet in this revision (work in progress; see DESIGN.md §4 for the planned design)"
